@@ -8,3 +8,11 @@ See Also:
 from .server import *
 
 from .._generated.pub import *
+
+from importlib import import_module as _import_module
+
+# The star-imports above also copy module objects that share a name with one of this package's
+# own submodules (the generated pub.server package would shadow eolib.protocol.pub.server).
+# Make sure the documented submodules win.
+for _name in ("server",):
+    globals()[_name] = _import_module(f".{_name}", __name__)
